@@ -2,29 +2,33 @@ import Spok.Props.C07
 /-! # Property C11 — formatting is idempotent
 
 `format (norm t) = format t` holds for EVERY tree (the printer trims comment text, so re-spelling a
-comment as `# ` + trimmed text prints the same).  With `print_parse` (C07) this gives: formatting the
-formatted text returns it unchanged, for every well-formed tree.  Open: `parse_wf` (see `Props/C07`). -/
+comment as `# ` + trimmed text prints the same).  With C07's `print_parse`, `parse_wf` and
+`format_selfDec` this gives, for every byte string that parses: formatting the formatted bytes returns
+them unchanged. -/
 namespace Spok.Props.C11
 open Spok
 
-/-- the printed form of the normalised tree is the printed form of the tree — every tree, any literals -/
+/-- the printed form of the normalised tree is the printed form of the tree — every tree -/
 theorem format_norm (t : Tree) : format (norm t) = format t := Spok.format_norm t
 
-/-- **C11** for every well-formed tree: format (parse (format t)) = format t, and that parse succeeds.
-    Missing for the full property: `parse_wf`. -/
-theorem C11_partial (t : Tree) (h : wfTree t = true) :
-    (parseRunes (format t)).fail = none ∧ format (parseRunes (format t)).tree = format t :=
-  format_idem C06.C06 h
-
-/-- a fixed point is reached after one application: the tree obtained by re-parsing is again
-    well-formed-for-printing in the sense that printing it again changes nothing (`norm` is idempotent) -/
+/-- `norm` is idempotent: a fixed point is reached after one application -/
 theorem norm_idem (t : Tree) : norm (norm t) = norm t := Spok.norm_idem t
 
-/-- the judge accepts the model on well-formed trees -/
-theorem judge_accepts_model_partial (t : Tree) (h : wfTree t = true) :
-    Judge.c11 (flat (format t)) (flat (format (parseRunes (format t)).tree)) = true := by
-  rw [(C11_partial t h).2]; simp [Judge.c11]
+/-- **C11** (byte level, full strength): `fmt (fmt x) = fmt x` for every `x` that parses, where
+    `fmt x = flat (format (parse x).tree)`; the second parse never fails. -/
+theorem C11 (bytes : List UInt8) (hp : (parse bytes).fail = none) :
+    (parse (flat (format (parse bytes).tree))).fail = none ∧
+    flat (format (parse (flat (format (parse bytes).tree))).tree) = flat (format (parse bytes).tree) := by
+  have hw : wfTree (parse bytes).tree = true := C07.parse_wf (decodeAll bytes) hp
+  rw [C07.format_bytes bytes hp, C07.print_parse _ hw]
+  exact ⟨rfl, by rw [Spok.format_norm]⟩
 
-example : format (parseRunes (format Fmt.exTree)).tree = format Fmt.exTree := (C11_partial _ Fmt.exTree_wf).2
+/-- the judge accepts the model -/
+theorem judge_accepts_model (bytes : List UInt8) (hp : (parse bytes).fail = none) :
+    Judge.c11 (flat (format (parse bytes).tree)) (flat (format (parse (flat (format (parse bytes).tree))).tree)) = true := by
+  rw [(C11 bytes hp).2]; simp [Judge.c11]
+
+example : format (parseRunes (format Fmt.exTree)).tree = format Fmt.exTree := by
+  rw [C07.print_parse _ Fmt.exTree_wf]; exact Spok.format_norm _
 
 end Spok.Props.C11
